@@ -55,8 +55,17 @@ Judge(e) ==
                                                THEN CHOOSE i \in DOMAIN acc0 : acc0[i].vid = cs.snap.vid ELSE 0
                         IN rank(final) >= rank(seedcs) ) >>,
         <<"C01", (~e.faulted) => ChainOK(final) >>,
+        \* C02 on overlapping requests: two accepted uploads never share a parent; a rejection names a version that WAS the
+        \* latest at some point of the round (the seed's latest or a version accepted in the round) - never an id nobody was
+        \* issued; an accepted upload's parent was the latest at some point, or the client had no versions; and a round made
+        \* of AddVersion requests only is explained by applying them one at a time
         <<"C02", (~e.faulted) =>
-                   \A r, s \in accepted : (r # s /\ reqs[r].arg = reqs[s].arg) => seedcs.latest = Nil /\ FALSE >>,
+                   LET avs == {r \in rids : reqs[r].op = "AddVersion"}
+                       everLatest == {seedcs.latest} \cup {resps[r].vid : r \in accepted}
+                   IN /\ \A r, s \in accepted : (r # s /\ reqs[r].arg = reqs[s].arg) => FALSE
+                      /\ \A r \in avs : resps[r].kind = "conflict" => (resps[r].vid \in everLatest /\ resps[r].vid # Nil)
+                      /\ \A r \in accepted : reqs[r].arg \in everLatest \/ seedcs.versions = {}
+                      /\ (avs = rids => (noerr /\ lin)) >>,
         \* GetChildVersion while a storage step fails: an answer that is not an error must still be the right one
         \* (a failed lookup must never be reported as "no such child" / "gone")
         <<"C08f", (e.faulted /\ Cardinality(rids) = 1 /\ reqs[1].op = "GetChildVersion" /\ resps[1].kind \notin {"error", "panic", "timeout"}) =>
@@ -67,6 +76,9 @@ Judge(e) ==
                     /\ resps[1].kind \notin {"error", "panic", "timeout"} => RespMatches(UnitApply(e.cfg, seedcs, reqs[1], <<1, "m">>).resp, resps[1])
                     /\ final = seedcs
                     /\ FollowOK(e.cfg, final, [i \in DOMAIN e.follow |-> [req |-> e.follow[i].req, resp |-> e.follow[i].resp]], 1) >>,
+        \* a request refused because the write lock could not be had (somebody else held it) leaves everything as it was
+        <<"C18f", (e.faulted /\ e.lockbusy.n > 0 /\ Cardinality(rids) = 1 /\ resps[1].kind \in {"error", "refused"}) =>
+                    (final = seedcs /\ e.other = e.other0) >>,
         <<"C05", e.faulted =>
                    ( Cardinality(rids) = 1
                      /\ C05_Round(e.cfg, seedcs, reqs[1], resps[1], final, [i \in DOMAIN e.follow |-> [req |-> e.follow[i].req, resp |-> e.follow[i].resp]],
